@@ -197,13 +197,21 @@ def _on_alarm(signum, frame):
     raise CaseDeadline()
 
 
-def with_deadline(fn, seconds=CASE_DEADLINE):
-    """(True, fn()) or (False, None) when fn did not return within the deadline"""
+_TIMEOUTS = [0]
+
+
+def with_deadline(fn, seconds=None):
+    """(True, fn()) or (False, None) when fn did not return within the deadline.  Once three cases of a run have hit the
+    deadline the tree is known not to terminate on some inputs; the remaining cases get a short deadline so that the run
+    itself ends (a legitimate case takes milliseconds)"""
+    if seconds is None:
+        seconds = CASE_DEADLINE if _TIMEOUTS[0] < 3 else 0.05
     old = signal.signal(signal.SIGALRM, _on_alarm)
     signal.setitimer(signal.ITIMER_REAL, seconds)
     try:
         return True, fn()
     except CaseDeadline:
+        _TIMEOUTS[0] += 1
         return False, None
     finally:
         signal.setitimer(signal.ITIMER_REAL, 0)
@@ -382,6 +390,12 @@ def _components(i):
 
 
 def mode_history(req):
+    # a parser that does not terminate is reported by the parse stream (per-case deadlines); here the whole pass is bounded
+    done, res = with_deadline(lambda: _mode_history(req), 120)
+    return res if done else {'bad': [], 'checked': 0, 'timeout': True}
+
+
+def _mode_history(req):
     from wpull.urlrewrite import URLRewriter
     urls = [un6(u) for u in req['urls']]
     fresh = []
